@@ -128,7 +128,7 @@ func newApplierEnv(seed int64, td uint64, variant int) *applierEnv {
 		pubOps: []*operation.AnchoredOperation{{Type: operation.TypeUpdate, UniqueSuffix: "pub", CanonicalReference: "p2", TransactionTime: 5, TransactionNumber: 1},
 			{Type: operation.TypeCreate, UniqueSuffix: "pub", CanonicalReference: "p0", TransactionTime: 1},
 			{Type: operation.TypeUpdate, UniqueSuffix: "pub", CanonicalReference: "p2", TransactionTime: 3, TransactionNumber: 2}},
-		unpub:   []*operation.AnchoredOperation{{Type: operation.TypeUpdate, UniqueSuffix: "unpub", TransactionTime: 2}},
+		unpub: []*operation.AnchoredOperation{{Type: operation.TypeUpdate, UniqueSuffix: "unpub", TransactionTime: 2}},
 	}
 }
 
@@ -259,8 +259,8 @@ func (e *applierEnv) project(rm *protocol.ResolutionModel) (a ARM) {
 		a.Ao = -1
 	}
 
-	a.Created, a.Updated = rm.CreatedTime, rm.UpdatedTime
-	a.LastT, a.LastN, a.LastPV = rm.LastOperationTransactionTime, rm.LastOperationTransactionNumber, rm.LastOperationProtocolVersion
+	a.Created, a.Updated = unoffT(rm.CreatedTime), unoffT(rm.UpdatedTime)
+	a.LastT, a.LastN, a.LastPV = unoffT(rm.LastOperationTransactionTime), rm.LastOperationTransactionNumber, rm.LastOperationProtocolVersion
 
 	ref := func(s string) int {
 		if s == "" {
@@ -622,6 +622,7 @@ func applierReplay(args []string) {
 	fl := parseFlags(args)
 	seed := int64(fl.int("seed", envInt("VERIF_SEED", 1)))
 	td := uint64(fl.int("td", 1))
+	timeOffset = uint64(fl.int("toffset", 0))
 	pvariant := fl.int("pvariant", 0)
 	expand := fl.bool("expand")
 	withParser := fl.bool("parser")
@@ -812,9 +813,19 @@ func applierReplay(args []string) {
 						wantUntil = ed.Win.From + int64(env.proto.MaxOperationTimeDelta) // (the model's ticks stand for seconds times ten there)
 					}
 
-					if !rec.called || rec.from != ed.Win.From || rec.until != wantUntil {
+					// (moved up with the times of the request: a bound that is set, and the default that derives from one)
+					wantFrom := ed.Win.From
+					if ed.Op.From != 0 {
+						wantFrom += int64(timeOffset)
+					}
+
+					if ed.Op.Until != 0 || ed.Op.From != 0 {
+						wantUntil += int64(timeOffset)
+					}
+
+					if !rec.called || rec.from != wantFrom || rec.until != wantUntil {
 						col.report(mismatch{Kind: "time-validator", Key: opKey("time-validator", &ed.Op), Case: cs,
-							Expected: map[string]interface{}{"called": true, "from": ed.Win.From, "until": wantUntil},
+							Expected: map[string]interface{}{"called": true, "from": wantFrom, "until": wantUntil},
 							Actual:   map[string]interface{}{"called": rec.called, "from": rec.from, "until": rec.until, "parse_error": fmt.Sprint(perr)},
 							Concrete: conc(0), Replay: rp})
 					}
